@@ -53,6 +53,7 @@ def generate(reg,c,pins=None,only_case=None,only_variant=None,extra_requires=())
       if not feasible(st):     # this (variant, case) pair is empty, e.g. 'stepped' with step None; cover is guarded natively per case
         info['variants']-=1; continue
       st.entry_env=dict(env); st.entry_heap=dict(st.heap); st.env=dict(env)
+      if c.ghost_init is not None: c.ghost_init(ex,st)
       # every declared case precondition must be satisfiable (vacuity guard) - checked natively by the sampler (cover)
       outs=list(ex.block(strip_doc(fn),st))
       for pi,(so,ctl) in enumerate(outs):
@@ -61,10 +62,14 @@ def generate(reg,c,pins=None,only_case=None,only_variant=None,extra_requires=())
         mk=lambda goal,note='': Query(list(so.pc),goal,th,vl,pid,list(st.syms),note,variant)
         if ctl is None: ctl=('return',NONE)
         if ctl[0]=='return':
+          for lm in c.exit_lemmas:      # instances of the finite-set lemmas named in the contract (listed as assumptions)
+            so.pc.append(ex.spec_bool(lm,dict(so.env),so,so.heap,st.entry_heap,st.entry_env))
           if cs.raises is not None and not cs.raises_or_ensures:
             ob('raises',cs.name).queries.append(mk(z3.BoolVal(False),f"returns {ctl[1]!r} instead of raising {cs.raises}"))
             continue
           env2=dict(env); env2['result']=ctl[1]
+          for gk,gv in so.env.items():
+            if gk.startswith('g_'): env2[gk]=gv
           for k,cl in enumerate(cs.clauses()):
             try:
               g=ex.spec_bool(cl,env2,so,so.heap,st.entry_heap,st.entry_env)
@@ -96,7 +101,13 @@ def generate(reg,c,pins=None,only_case=None,only_variant=None,extra_requires=())
           exc=ctl[1]
           if cs.raises is not None:
             okc = cs.raises=='Exception' or ex.exc_sub(exc.cls,cs.raises)
-            ob('raises',cs.name).queries.append(mk(z3.BoolVal(okc),f"raises {exc.cls} ({exc.note}), contract wants {cs.raises}"))
+            goal=z3.BoolVal(okc); note=f"raises {exc.cls} ({exc.note}), contract wants {cs.raises}"
+            if okc and cs.raise_only_if is not None:
+              # an exception is acceptable only in the situation the statement names (evaluated over the locals at the raise point)
+              try: goal=ex.spec_bool(cs.raise_only_if,dict(so.env),so,so.heap,st.entry_heap,st.entry_env)
+              except (ToolError,Unsupported,KeyError): goal=z3.BoolVal(False)
+              note=f"raises {exc.cls} ({exc.note}) although not ({cs.raise_only_if})"
+            ob('raises',cs.name).queries.append(mk(goal,note))
             # an exception case promises the object state is untouched
             diffs=[]
             mods=set(cs.modifies if cs.modifies is not None else c.modifies); modlocs=set()
